@@ -12,6 +12,7 @@ package checks
 import (
 	"encoding/json"
 	"fmt"
+	"runtime/debug"
 	"sort"
 	"strings"
 	"sync"
@@ -336,7 +337,19 @@ func c14History(r *ev.Run, p *prng.R, batch, hi int) {
 		// injected notifications that must fail to apply and must not produce events for the failed row
 		if p.Chance(1, 6) {
 			us := sortedKeys(st)
-			switch p.Intn(4) {
+			switch p.Intn(5) {
+			case 4:
+				// RFC 'update' with old and new for a row the cache does not hold (a monitor
+				// whose set-up failed after the server had registered it keeps notifying)
+				used["fail:v1-modify-of-unknown-row"] = true
+				func() {
+					defer func() {
+						if pv := recover(); pv != nil {
+							r.Violation("C14/inapplicable-notification-panics/v1-modify-of-unknown-row/"+ev.PanicSignature(fmt.Sprint(pv), string(debug.Stack())), fmt.Sprintf("Populate panics on an RFC 'update' modifying a row the cache does not hold: %v", pv), nil)
+						}
+					}()
+					_ = tc.Populate(ovsdb.TableUpdates{"T": {p.UUID(): &ovsdb.RowUpdate{Old: fullWire(c.randRow(p)), New: fullWire(c.randRow(p))}}})
+				}()
 			case 0:
 				if len(us) > 0 {
 					used["fail:insert-of-cached-uuid"] = true
